@@ -109,6 +109,25 @@ def gen(rng: Any, prop: str, tier: str) -> dict[str, Any]:
         c = rng.choice(clients)
         cid = c["id"]
         shared_ok = c["kind"] == "shared" and not threaded
+        if not threaded and own_tables[cid] and rng.random() < 0.08:
+            # a transaction spanning several requests of one session, with a failing statement inside: the session's
+            # transaction must survive the error exactly as it does in process
+            t = rng.choice(own_tables[cid])
+            ops.append({"s": cid, "k": "query", "sql": rng.choice(["BEGIN", "BEGIN TRANSACTION"]), "kind": "txn"})
+            for _ in range(rng.randint(1, 4)):
+                r = rng.random()
+                if r < 0.4:
+                    ops.append({"s": cid, "k": "query", "sql": f"INSERT INTO {t} VALUES ({fresh()}, 'x{fresh()}')", "kind": "dml"})
+                elif r < 0.6:
+                    ops.append({"s": cid, "k": "query", "sql": f"UPDATE {t} SET B = 'u{fresh()}' WHERE A > {uid[0] - rng.randint(1, 8)}", "kind": "dml"})
+                elif r < 0.8:
+                    ops.append({"s": cid, "k": "query", "kind": "error", "sql": rng.choice(["SELECT * FROM NO_SUCH_TABLE", f"SELECT NOPE FROM {t}", "SELECT $UNDEFINED_VAR"])})
+                else:
+                    ops.append({"s": cid, "k": "query", "sql": f"SELECT A, B FROM {t} ORDER BY A", "kind": "select"})
+            ops.append({"s": cid, "k": "query", "sql": f"SELECT A, B FROM {t} ORDER BY A", "kind": "select"})
+            ops.append({"s": cid, "k": "query", "sql": rng.choice(["COMMIT", "ROLLBACK"]), "kind": "txn"})
+            ops.append({"s": cid, "k": "query", "sql": f"SELECT A, B FROM {t} ORDER BY A", "kind": "select"})
+            continue
         kind = rng.choices(["typed_create", "typed_select", "create", "insert", "select", "update", "delete", "error", "var", "ctx", "bad_token", "empty", "use", "shx_replace", "shx_select", "shx_episode"],
                            [3 if cid not in have_typed else 0, 8 if cid in have_typed else 0, 3, 6, 5, 2, 2, 4, 2, 1, 2, 1, 1, 2 if shared_ok else 0, 4 if shared_ok and shx[0] else 0, 3 if shared_ok and sum(1 for x in clients if x["kind"] == "shared") >= 2 else 0])[0]
         q = None
